@@ -924,6 +924,7 @@ class SymNumpy:
         self._np = _np
         self.linalg = _Linalg(_np.linalg)
         self.symbolic_arrays = True
+        self.object_kinds = "fc"      # dtypes replaced by object arrays while exploring ("fcui" for machine-word kernels)
 
     def __getattr__(self, k):
         return getattr(_np, k)
@@ -1045,14 +1046,14 @@ class SymNumpy:
 
     # constructors: object arrays while exploring, so symbolic values can be stored
     def zeros(self, shape, dtype=None, **k):
-        if active() and self.symbolic_arrays and (dtype is None or _np.dtype(dtype).kind == "f"):
+        if active() and self.symbolic_arrays and (dtype is None or _np.dtype(dtype).kind in self.object_kinds):
             a = _np.empty(shape, dtype=object)
             a.fill(0.0)
             return a
         return _np.zeros(shape, dtype=dtype, **k) if dtype is not None else _np.zeros(shape, **k)
 
     def empty(self, shape, dtype=None, **k):
-        if active() and self.symbolic_arrays and (dtype is None or _np.dtype(dtype).kind == "f"):
+        if active() and self.symbolic_arrays and (dtype is None or _np.dtype(dtype).kind in self.object_kinds):
             a = _np.empty(shape, dtype=object)
             a.fill(0.0)
             return a
@@ -1120,7 +1121,9 @@ def load_shimmed(modname, overrides=None, transform=None, alias=None, pre=None):
     code = compile(tree, path, "exec")
     m = types.ModuleType(alias or (modname + "__symx"))
     m.__file__ = path
-    m.__package__ = modname.rsplit(".", 1)[0]
+    m.__package__ = modname if path.endswith("__init__.py") else modname.rsplit(".", 1)[0]
+    if path.endswith("__init__.py"):
+        m.__path__ = [path.rsplit("/", 1)[0]]
     m.__name__ = modname  # so that relative imports and logging names match
     for k, v in (pre or {}).items():   # names the module captures at import time (e.g. float in parser tables)
         m.__dict__[k] = v
